@@ -153,6 +153,15 @@ func cmdCheck(w *World, args []string, tier string, verbose bool) int {
 		vacuity++
 		if a.Verdict == VUnsat {
 			problems = append(problems, fmt.Sprintf("vacuity/%s: precondition and assumptions are contradictory", r.name))
+			continue
+		}
+		// all assumptions made anywhere in the function (callee postconditions, invariants, model
+		// facts) must be jointly satisfiable, otherwise later obligations are discharged vacuously
+		bodyAll := strings.Join(o.fx.lines, "\n") + "\n"
+		a2 := runQuery(o.fx.W.preludeFor(bodyAll)+bodyAll, 5, false)
+		vacuity++
+		if a2.Verdict == VUnsat {
+			problems = append(problems, fmt.Sprintf("vacuity/%s: the assumptions collected while executing the function are contradictory", r.name))
 		}
 	}
 
